@@ -85,9 +85,11 @@ def prove_equal(g, x, y, timeout, workdir, st):
 
 def rebuild(g, repl, roots):
     """new graph where node n is replaced by literal repl[n] (of a smaller node); returns (new graph, mapped roots)"""
-    ng = aig.Graph()
+    ng = aig.Graph(g.affine)
     new = [0] * g.size()
     new[0] = 0
+    for n in g.inputs:      # inputs first and in the same order: affine masks stay valid
+        new[n] = ng.new_input(g.names.get(n, "i%d" % n))
     for n in range(2, g.size()):
         k = g.kind[n]
         if n in repl:
@@ -95,7 +97,9 @@ def rebuild(g, repl, roots):
             new[n] = new[r >> 1] ^ (r & 1)
             continue
         if k == 1:
-            new[n] = ng.new_input(g.names.get(n, "i%d" % n))
+            pass
+        elif k == 4:
+            new[n] = ng.from_mask(g.mask[n])
         else:
             x, y = g.a[n], g.b[n]
             nx = new[x >> 1] ^ (x & 1)
@@ -116,30 +120,14 @@ def check_equal(outs_a, outs_b, workdir, budget_s=600, seed=1, log=None):
     extra_patterns = []
     nwords = 2
     batch = 64
-    for it in range(200):
+    for it in range(100000):
         diff = [(x, y) for va, vb in zip(A, B) for x, y in zip(va, vb) if x != y]
         if not diff:
             return "equal", dict(st.__dict__, iterations=it, nodes=g.size())
         if time.time() - t_start > budget_s:
             break
-        val, mask = aig.simulate(g, nwords, rnd)
-        # fold counterexample patterns into the low bits of the simulation words
-        for k, pat in enumerate(extra_patterns[-(64 * nwords):]):
-            for n in range(2, g.size()):
-                if g.kind[n] == 1:
-                    if pat.get(g.names.get(n), False):
-                        val[n] |= (1 << k)
-                    else:
-                        val[n] &= ~(1 << k)
-        if extra_patterns:
-            # re-simulate internal nodes
-            for n in range(2, g.size()):
-                k2 = g.kind[n]
-                if k2 != 1:
-                    x, y = g.a[n], g.b[n]
-                    vx = val[x >> 1] ^ (mask if x & 1 else 0)
-                    vy = val[y >> 1] ^ (mask if y & 1 else 0)
-                    val[n] = (vx & vy) if k2 == 2 else (vx ^ vy)
+        # counterexample patterns occupy the low bits of the simulation words
+        val, mask = aig.simulate(g, nwords, rnd, extra_patterns[-(64 * nwords - 32):])
         # a differing output pair with different signatures is a real difference candidate: check it first
         for x, y in diff:
             vx = val[x >> 1] ^ (mask if x & 1 else 0) if x > 1 else (mask if x else 0)
@@ -182,50 +170,57 @@ def check_equal(outs_a, outs_b, workdir, budget_s=600, seed=1, log=None):
                 return "equal", dict(st.__dict__, iterations=it, nodes=g.size(), closed_by="output miters")
             break
         repl = {}
-        proved = 0
         tried = 0
-        # batch proving: one SAT call asserts "some candidate pair differs"; UNSAT proves the whole batch
-        take = []
-        used = set()
-        for n, r in cands:
-            if len(take) >= batch:
-                break
-            if (r >> 1) in used or n in used:
-                continue
-            used.add(n)
-            take.append((n, r))
-        tried = len(take)
-        miters = [g.XOR(2 * n, r) for n, r in take]
-        if any(m == 1 for m in miters):
-            res, model, vm = "sat", {}, {}
-        else:
-            live = [(c, m) for c, m in zip(take, miters) if m != 0]
-            for (n, r), m in zip(take, miters):
-                if m == 0:
-                    repl[n] = r
-            if live:
-                nv, cl, vm = aig.to_cnf(g, [], any_of=[m for _, m in live])
+        # batch proving: one SAT call asserts "some candidate pair of the chunk differs"; UNSAT proves the whole chunk;
+        # SAT: the model names the refuted pairs (their miter variables are true), they are dropped, the model becomes
+        # a simulation pattern, and the rest of the chunk is retried
+        pos = 0
+        chunks = 0
+        t_iter = time.time()
+        while pos < len(cands) and chunks < 64 and time.time() - t_start < budget_s and time.time() - t_iter < 120:
+            chunk = cands[pos:pos + batch]
+            pos += len(chunk)
+            chunks += 1
+            tried += len(chunk)
+            for attempt in range(12):
+                live = []
+                for n, r in chunk:
+                    m = g.XOR(2 * n, r)
+                    if m == 0:
+                        repl[n] = r
+                    elif m != 1:
+                        live.append((n, r, m))
+                if not live:
+                    break
+                nv, cl, vm = aig.to_cnf(g, [], any_of=[m for _, _, m in live])
                 st.sat_calls += 1
                 t1 = time.time()
                 res, model = kissat(nv, cl, 60, workdir)
                 st.sat_time += time.time() - t1
-            else:
-                res, model, vm = "unsat", None, {}
-        if res == "unsat":
-            st.unsat += 1
-            for (n, r), m in zip(take, miters):
-                repl[n] = r
-            proved = len(repl)
-            batch = min(2048, batch * 2)
-        elif res == "sat":
-            st.sat += 1
-            extra_patterns.append({g.names[k]: model.get(v, False) for k, v in vm.items() if g.kind[k] == 1})
-            proved = len(repl)
-            batch = max(8, batch // 2)
-        else:
-            st.unknown += 1
-            proved = len(repl)
-            batch = max(4, batch // 4)
+                if res == "unsat":
+                    st.unsat += 1
+                    for n, r, m in live:
+                        repl[n] = r
+                    if attempt == 0:
+                        batch = min(2048, batch * 2)
+                    break
+                if res != "sat":
+                    st.unknown += 1
+                    batch = max(4, batch // 4)
+                    break
+                st.sat += 1
+                extra_patterns.append({g.names[k]: model.get(v, False) for k, v in vm.items() if g.kind[k] == 1})
+                keep = []
+                for n, r, m in live:
+                    mv = model.get(vm[m >> 1], False) ^ bool(m & 1)
+                    if not mv:
+                        keep.append((n, r))
+                if len(keep) == len(live):      # cannot happen (the clause forces one miter true); guard against looping
+                    break
+                chunk = keep
+                if attempt >= 3:
+                    batch = max(8, batch // 2)
+        proved = len(repl)
         if log:
             log("sweep iteration %d: %d differing output bits, %d candidates, %d tried, %d proved, %d nodes"
                 % (it, len(diff), len(cands), tried, proved, g.size()))
